@@ -27,9 +27,10 @@ ASSUMPTIONS = ['all randomness of the routines enters through numpy.random.randi
 BOUNDS = {'quick': {'n_rdm': '1..3', 'n_cond': '2..4', 'deviation_bound': 'none (all draws)'},
           'thorough': {'n_rdm': '1..4', 'n_cond': '2..5', 'deviation_bound': 'none (all draws)'}}
 
-RDM_GROUPINGS = ['index', 'rid', 'grp', 'rname', 'ralt']
-RD = ('rid', 'grp', 'rname', 'ralt')
-PAT_GROUPINGS = ['index', 'cid', 'cat', 'name', 'pgrp']
+RDM_GROUPINGS = ['index', 'rid', 'grp', 'rname', 'ralt', 'rbig']
+RD = ('rid', 'grp', 'rname', 'ralt', 'rbig')
+PAT_GROUPINGS = ['index', 'cid', 'cat', 'name', 'pgrp', 'big']
+PD = ('cid', 'name', 'cat', 'pgrp', 'big')
 
 
 def _configs(tier):
@@ -43,6 +44,9 @@ def _configs(tier):
                     # full product of groupings only for the largest quick size; else a diagonal
                     if (n_rdm, n_cond) not in [(3, 4), (4, 5)] and \
                             (RDM_GROUPINGS.index(rd) + PAT_GROUPINGS.index(pdn)) % 3 != 0:
+                        continue
+                    # the six-digit-id groupings are crossed with 'index' and with each other only
+                    if (rd == 'rbig' and pdn not in ('index', 'big')) or (pdn == 'big' and rd not in ('index', 'rbig')):
                         continue
                     out.append(('bootstrap_sample', n_rdm, n_cond, rd, pdn, cont))
                 if (n_rdm, n_cond) in [(3, 4), (4, 5), (2, 3)]:
@@ -114,16 +118,16 @@ def _execute(cfg, env):
     src = cfg[6] if len(cfg) > 6 else 'fresh'
     rids, cids = _ids(cfg)
     if src == 'fresh':
-        rdms = selfdesc.build(rids, cids, container=cont, rdm_desc=RD)
-        model = selfdesc.build([9], cids, container=cont)
+        rdms = selfdesc.build(rids, cids, container=cont, rdm_desc=RD, pat_desc=PD)
+        model = selfdesc.build([9], cids, container=cont, pat_desc=PD)
     elif src == 'subset':
         full = list(range(n_cond + 2))
-        rdms = selfdesc.build(rids, full, container=cont, rdm_desc=RD).subset_pattern('cid', cids)
-        model = selfdesc.build([9], full, container=cont).subset_pattern('cid', cids)
+        rdms = selfdesc.build(rids, full, container=cont, rdm_desc=RD, pat_desc=PD).subset_pattern('cid', cids)
+        model = selfdesc.build([9], full, container=cont, pat_desc=PD).subset_pattern('cid', cids)
     else:
         full = sorted(set(cids) | {1})
-        rdms = selfdesc.build(rids, full, container=cont, rdm_desc=RD).subsample_pattern('cid', cids)
-        model = selfdesc.build([9], full, container=cont).subsample_pattern('cid', cids)
+        rdms = selfdesc.build(rids, full, container=cont, rdm_desc=RD, pat_desc=PD).subsample_pattern('cid', cids)
+        model = selfdesc.build([9], full, container=cont, pat_desc=PD).subsample_pattern('cid', cids)
     before = (rdms.dissimilarities.copy(), repr(rdms.rdm_descriptors), repr(rdms.pattern_descriptors))
     rng = rngenv.RngEnv(env)
     with rngenv.installed(rng):
@@ -209,7 +213,7 @@ def _judge(cfg, obs, ctx, case):
     # 3. every entry is the source value of its own labels; NaN iff two copies of one condition;
     #    all descriptor values travel with their item
     for kind, msg in selfdesc.verify(sample, rdm_desc=RD,
-                                     pat_desc=('cid', 'name', 'cat', 'pgrp')):
+                                     pat_desc=PD):
         ctx.fail(sigp + '|' + kind, case, msg)
     if not obs['source_unchanged']:
         ctx.fail(sigp + '|source-modified', case, 'the resampled object was changed by the draw')
